@@ -1352,3 +1352,24 @@ class LoopVariable:
 
     def visitExpression(self, node):
         self._loop_reference_detected(node)
+
+    # tags refer to "loop" in their attributes as well: the expression of
+    # a <%call>, ${} in the attributes of <%ns:def> and <%include>, args=,
+    # filter=, and the argument defaults of a nested <%def>
+    def visitIncludeTag(self, node):
+        self._loop_reference_detected(node)
+
+    def visitTextTag(self, node):
+        self._loop_reference_detected(node)
+
+    def visitDefTag(self, node):
+        self._loop_reference_detected(node)
+
+    def visitBlockTag(self, node):
+        self._loop_reference_detected(node)
+
+    def visitCallTag(self, node):
+        self._loop_reference_detected(node)
+
+    def visitCallNamespaceTag(self, node):
+        self._loop_reference_detected(node)
